@@ -34,7 +34,7 @@ CHECKS = {
          "batch-to-segment mapping comes from an independent decode of the journal's log bytes", "deterministic simulation: crash-point enumeration + post-recovery workload"),
  "C08": ("exploration", "2..8 caller threads on one handle under seeded schedules (random, PCT, worker-starved, worker-eager, burst; preemption at locks, condition variables, thread start, file calls and lcdb's atomics). Histories of up to 64 operations (writes, multi-key batches, reads, snapshot reads, iterator scans, flush, compact-range, final-state reads) stamped with scheduler step numbers are decided by a Wing-Gong linearizability search with memoisation; every history of any size is checked for reads from the future, stale reads, reads going backwards per thread, values never written and all-or-none batch visibility. The memtable is pre-filled so that the switch and background flush happen inside the history.", "6, 7 C08",
          "schedules are sampled (seeded, PCT-biased), not systematically enumerated; a search that exhausts its node cap counts as inconclusive, never as a violation", "deterministic simulation: seeded schedule search + Wing-Gong linearizability checker"),
- "C09": ("exploration", "every multi-threaded run is a deadlock test: the scheduler owns every lock and condition variable, so 'some thread unfinished, none runnable' is an exact state and is reported with the wait-for table; a per-run step budget bounds every call; workloads add queued group commits, writers stalled on a full buffer with the worker starved, accumulated level-0 files, flush/compact/backup racing each other, spurious wake-ups, and ldb_close issued while background work is scheduled or mid-way. A leaked background thread after close is also reported.", "3.2, 7 C09",
+ "C09": ("exploration", "every multi-threaded run is a deadlock test: the scheduler owns every lock and condition variable, so 'some thread unfinished, none runnable' is an exact state and is reported with the wait-for table; a per-run step budget bounds every call; workloads add queued group commits, writers stalled on a full buffer with the worker starved, accumulated level-0 files, flush/compact/backup racing each other, spurious wake-ups, and ldb_close issued while background work is scheduled or mid-way. A leaked background thread after close is also reported. A quarter of the workers run ioerr-mode (every enumerated I/O fault site, concurrent write bursts) under the same detector, so a call that gets stuck on an error path is found too.", "3.2, 7 C09",
          "liveness is bounded (step budget 3e7 per run, calibrated >100x the largest clean run); close under a running caller violates the API contract and is not generated", "deterministic simulation: exact deadlock detection under seeded schedules"),
  "C10": ("exploration", "the concurrency workload widened to put/del/write/get/iterate/snapshot/release/flush/compact/property/approximate-sizes/backup/close-after-join runs in a ThreadSanitizer build in which only lcdb is instrumented: the scheduler's hand-off is invisible to TSan, so any pair of conflicting accesses that lcdb's own locks/atomics do not order is reported even though the threads ran one after the other; the same plans run under AddressSanitizer+UBSan for the memory-error half. Sensitivity was confirmed with a planted race (unlocked snapshot release).", "3.2, 7 C10",
          "a race is found when both accesses occur in one run (happens-before detector), in any order; weak-memory effects a race-free program cannot observe are out of scope", "deterministic simulation under ThreadSanitizer (hidden scheduler hand-off) and AddressSanitizer"),
